@@ -59,13 +59,13 @@ def random_slices(algo, seed, count, nsym, extra='', nmin=6, nmax=7, wmax=20):
     return out
 
 
-def dense_slices(algo, seed, count, nsym=2, extra=''):
+def dense_slices(algo, seed, count, nsym=2, extra='', ns=(5, 6)):
     """seeded dense graphs on 5..6 vertices (m >= 2n, so that a support vector can reach >= n signed edges and the per-vertex branch of the
     signed searches runs) with bimodal fixed weights (light 1..9, heavy 40..80)"""
-    r = rng(shash((seed, algo, 'dense', nsym)))
+    r = rng(shash((seed, algo, 'dense', nsym) + (() if tuple(ns) == (5, 6) else tuple(ns))))
     out = []
     while len(out) < count:
-        n = r.choice([5, 6])
+        n = r.choice(list(ns))
         m = min(r.randint(2 * n, 2 * n + 2), n * (n - 1) // 2)
         es = sorted(r.sample(all_pairs(n), m))
         if components(n, es) != 1:
@@ -118,6 +118,11 @@ def exact_cases(tier, seed, algos=('signed', 'fvs', 'iso')):
             cases += random_slices(algo, seed, 6, 2)
         if algo == 'signed':
             cases += dense_slices(algo, seed, 4 if tier == 'quick' else 10, 2)
+        # wide and shallow: many seeded graphs on 6..8 vertices, ONE symbolic weight each (every value and every tie of that weight against a
+        # concrete background; ~25 leaves per case) - reaches graph shapes and phases the fully symbolic small cases cannot
+        wide_n = (400 if algo == 'signed' else 150) * (1 if tier == 'quick' else 4)
+        cases += random_slices(algo, seed, wide_n, 1, nmin=6, nmax=8)
+        cases += dense_slices(algo, seed, 30 if tier == 'quick' else 120, 1, ns=(6, 7))
         # a forest and an edgeless graph with several components
         cases.append('algo=%s n=5 edges=0-1,1-2,1-3,3-4 sym=all' % algo)
         cases.append('algo=%s n=5 edges=0-1,2-3 sym=all' % algo)
@@ -247,6 +252,9 @@ def approx_cases(tier, seed, algos=('approx_signed', 'approx_fvs', 'approx_iso')
             # C5 plus one chord, C6 plus a long chord
             cases.append('algo=%s k=%d n=5 edges=0-1,1-2,2-3,3-4,0-4,0-2 sym=%s' % (algo, k, '0,1,2,5' if tier == 'thorough' else '0,2,5'))
             cases.append('algo=%s k=%d n=6 edges=0-1,1-2,2-3,3-4,4-5,0-5,0-3 sym=%s' % (algo, k, '0,3,6' if tier == 'quick' else '0,1,3,6'))
+            # wide and shallow: seeded graphs on 6..9 vertices with one symbolic weight
+            cases += random_slices(algo, seed + k, 60 if tier == 'quick' else 250, 1, nmin=6, nmax=9, extra=' k=%d' % k)
+            cases += dense_slices(algo, seed + k, 15 if tier == 'quick' else 60, 1, extra=' k=%d' % k, ns=(6, 7))
     return cases
 
 
@@ -277,6 +285,9 @@ def spanner_cases(tier, seed):
         if tier == 'thorough':
             for g in iso_classes(5, max_m=7, min_m=4):
                 cases.append('algo=spanner k=%d n=5 edges=%s sym=all' % (k, edges_str(g)))
+        # wide and shallow: seeded graphs on 6..9 vertices, two symbolic weights
+        cases += random_slices('spanner', seed + k, 40 if tier == 'quick' else 200, 2, nmin=6, nmax=9, extra=' k=%d' % k)
+        cases += dense_slices('spanner', seed + k, 10 if tier == 'quick' else 50, 2, extra=' k=%d' % k, ns=(6, 7))
     return cases
 
 
@@ -503,7 +514,7 @@ def generic_confirm(prop, line_of, violated_pred, keyfn, replayer_name):
 
 
 def topo_cases(tier, seed, prefix='', full_max_quick=5, full_max_thorough=6, fams_quick=(), fams_thorough=(), g5=True, g5_max=6,
-               extra='', g5_full=5):
+               extra='', g5_full=5, wide=40):
     cases = []
     for n, g in small_graphs(3) + [(4, g) for g in all_labelled_graphs(4)]:
         m = len(g)
@@ -541,6 +552,10 @@ def topo_cases(tier, seed, prefix='', full_max_quick=5, full_max_thorough=6, fam
                 symidx = ','.join(map(str, sorted(r.sample(range(len(g)), 3))))
                 cases.append('%sn=5 edges=%s sym=%s%s' % (prefix, edges_str(g), symidx, extra))
                 cases.append('%sn=5 edges=%s sym=%s order=%s%s' % (prefix, edges_str(g), symidx, ','.join(map(str, order)), extra))
+    # wide and shallow: seeded graphs on 6..8 vertices (and dense ones on 6..7), one symbolic weight against a concrete background
+    for c in random_slices('X', seed, wide if tier == 'quick' else 4 * wide, 1, nmin=6, nmax=8) + \
+            dense_slices('X', seed, wide // 4 if tier == 'quick' else wide, 1, ns=(6, 7)):
+        cases.append(prefix + c.split(' ', 1)[1] + extra)
     return cases
 
 
@@ -753,6 +768,26 @@ def rel_cases(tier, seed):
         for algo in seqs:
             cases.append('rel=perm algo=%s n=%d edges=%s sym=%s perm=%s fam=%s' % (algo, n, edges_str(es), symidx, ','.join(map(str, p)), f))
             cases.append('rel=scale algo=%s n=%d edges=%s sym=%s j=3 fam=%s' % (algo, n, edges_str(es), symidx, f))
+    # wide and shallow: seeded graphs on 6..8 vertices (and dense ones on 6..7), one symbolic weight against a concrete background
+    q = tier == 'quick'
+    wide = random_slices('REL', seed, 80 if q else 320, 1, nmin=6, nmax=8) + dense_slices('REL', seed, 24 if q else 96, 1, ns=(6, 7))
+    allpairs = [('signed', 'fvs'), ('signed', 'iso'), ('fvs', 'iso'), ('signed', 'signed_tbb'), ('fvs', 'fvs_tbb'), ('iso', 'iso_tbb')]
+    for i, c in enumerate(wide):
+        rest = c.split(' ', 1)[1]
+        pc = parse_case(rest)
+        n, m = int(pc['n']), len(pc['edges'].split(','))
+        kind = i % 3
+        if kind == 0:
+            a, b = allpairs[(i // 3) % len(allpairs)]
+            cases.append('rel=pair a=%s b=%s %s' % (a, b, rest))
+        elif kind == 1:
+            p = list(range(n))
+            r.shuffle(p)
+            cases.append('rel=perm algo=%s %s perm=%s' % (seqs[(i // 3) % len(seqs)], rest, ','.join(map(str, p))))
+        else:
+            o = list(range(m))
+            r.shuffle(o)
+            cases.append('rel=order algo=%s %s order=%s' % (seqs[(i // 3) % len(seqs)], rest, ','.join(map(str, o))))
     return cases
 
 
@@ -1380,6 +1415,13 @@ def tbb_cases(tier, seed):
     else:
         cases += random_slices('signed_tbb', seed, 6, 2, extra=' lmax=3 cb=0')
         cases += dense_slices('signed_tbb', seed, 4, 2, extra=' lmax=3 cb=1')
+    # wide and shallow: seeded graphs on 6..8 vertices, one symbolic weight, one symbolic scheduling choice
+    q = tier == 'quick'
+    for algo in exact:
+        cases += random_slices(algo, seed, 40 if q else 160, 1, nmin=6, nmax=8, extra=' lmax=3 cb=1 seed=%d' % seed)
+    cases += dense_slices('signed_tbb', seed, 30 if q else 120, 1, extra=' lmax=3 cb=1 seed=%d' % seed, ns=(6, 7))
+    for algo in approx:
+        cases += random_slices(algo, seed, 20 if q else 80, 1, nmin=6, nmax=8, extra=' lmax=3 cb=1 seed=%d k=2' % seed)
     cb = 2
     return [c if ' cb=' in c else c + ' cb=%d seed=%d' % (cb, seed) for c in cases]
 
@@ -1531,6 +1573,15 @@ def mpi_cases(tier, seed):
     for c in dense_slices('signed_mpi', seed, 3 if tier == 'quick' else 8, 1):
         for P in (2, 3):
             cases.append(c + ' P=%d layout=%s seed=%d' % (P, 'same' if P == 2 else 'rev', seed))
+    # wide and shallow: seeded graphs on 6..8 vertices, one symbolic weight, rank counts 2..5 in turn
+    q = tier == 'quick'
+    for algo in algos:
+        for i, c in enumerate(random_slices(algo, seed, 16 if q else 80, 1, nmin=6, nmax=8)):
+            P = (2, 3, 4, 5)[i % 4]
+            cases.append(c + ' P=%d layout=%s seed=%d' % (P, ('same', 'rev')[(i // 4) % 2], seed))
+    for i, c in enumerate(dense_slices('signed_mpi', seed, 16 if q else 64, 1, ns=(6, 7))):
+        P = (4, 3, 2, 5)[i % 4]
+        cases.append(c + ' P=%d layout=%s seed=%d' % (P, ('same', 'rev')[(i // 4) % 2], seed))
     if tier == 'thorough':
         for f, ns in [('K33', 2), ('K5', 2)]:
             for algo in algos:
@@ -1691,6 +1742,9 @@ def C07(tier, seed):
                 ex_cases.append('algo=%s n=%d edges=%s sym=all' % (algo, n, edges_str(g)))
         ex_cases += slice_cases(algo, 'K33', 2, seed) + slice_cases(algo, 'K5', 2, seed) + slice_cases(algo, 'grid3x3', 2, seed)
         ex_cases.append('algo=%s n=4 edges=0-1,0-2,0-3,1-2,1-3,2-3 sym=0,2,5' % algo)
+    for algo in ('signed', 'fvs', 'iso'):
+        # wide and shallow under the sanitizers too: seeded 6..8-vertex graphs with one symbolic weight
+        ex_cases += random_slices(algo, seed, 40 if q else 160, 1, nmin=6, nmax=8) + dense_slices(algo, seed, 8 if q else 32, 1, ns=(6, 7))
     runs.append(('exact', hx, ex_cases))
     ap_cases = []
     for algo in ('approx_signed', 'approx_fvs', 'approx_iso'):
@@ -1704,6 +1758,9 @@ def C07(tier, seed):
         for n, g in g4:
             if len(g) <= lim:
                 ap_cases.append('algo=spanner k=%d n=%d edges=%s sym=all' % (k, n, edges_str(g)))
+    for algo in ('approx_signed', 'approx_fvs', 'approx_iso'):
+        for k in (1, 2, 3):
+            ap_cases += random_slices(algo, seed + k, 16 if q else 64, 1, nmin=6, nmax=9, extra=' k=%d' % k)
     runs.append(('approx', ha, ap_cases))
     runs.append(('sptree', hs, ['n=%d edges=%s sym=all' % (n, edges_str(g)) for n, g in g4 if len(g) <= lim] +
                  ['n=9 edges=%s sym=none' % edges_str(norm_edges(family('grid3x3')[1])), 'n=6 edges=%s sym=0,4' % edges_str(norm_edges(family('K33')[1]))]))
